@@ -32,7 +32,10 @@ Bit(T) == (IF "a" \in T THEN 1 ELSE 0) + (IF "b" \in T THEN 2 ELSE 0) + (IF "c" 
 Vec == [i \in 1..16 |-> LET T == CHOOSE t \in SUBSET Targets : Bit(t) = i - 1 IN Accept(attrs, T)]
 MVec == [i \in 1..16 |-> LET T == CHOOSE t \in SUBSET Targets : Bit(t) = i - 1 IN M!MAccept(attrs, T)]
 
-Emit == PrintT(<<"REPLAY", ToJson([attrs |-> attrs, keep |-> Vec, predict |-> MVec])>>)
+\* contents: WHAT the guarded member is. Where the rule drops a member, nothing about it is looked at any more - not even a construct
+\* typeshare would otherwise refuse (serde(flatten), a u64, a tuple variant with several fields): the run succeeds without the member
+Contents == {"flatten_field", "u64_field", "multi_tuple_variant", "flatten_vfield", "u64_item"}
+Emit == PrintT(<<"REPLAY", ToJson([attrs |-> attrs, keep |-> Vec, predict |-> MVec, contents |-> Contents])>>)
 
 \* theorems about the rule itself
 Sane ==
